@@ -2,6 +2,9 @@ package main
 
 import (
 	"math/rand"
+	"reflect"
+
+	"github.com/ctessum/geom"
 )
 
 // C15: g.Similar(h, tol) and h.Similar(g, tol).
@@ -10,13 +13,32 @@ func init() {
 }
 
 func runC15(c map[string]interface{}) []Event {
-	e := Event{"ev": "similar", "gh": false, "hg": false}
+	e := Event{"ev": "similar", "gh": false, "hg": false, "agh": false, "ahg": false}
 	e["out"] = safely(func() {
 		g := decGeom(c["g"], intDec)
 		h := decGeom(c["h"], intDec)
 		tol := float64(num(c["tol"]))
 		e["gh"] = g.Similar(h, tol)
 		e["hg"] = h.Similar(g, tol)
+		e["agh"], e["ahg"] = e["gh"], e["hg"]
+		// when one geometry is the other with trailing members removed, the same comparison is also made between values that
+		// share their storage (the shorter one is a re-slice of the longer): the answer is about the values
+		gv, hv := reflect.ValueOf(g), reflect.ValueOf(h)
+		if gv.Kind() == reflect.Slice && gv.Type() == hv.Type() && gv.Len() != hv.Len() {
+			long, short, swapped := gv, hv, false
+			if hv.Len() > gv.Len() {
+				long, short, swapped = hv, gv, true
+			}
+			pre := long.Slice(0, short.Len())
+			if short.Len() > 0 && reflect.DeepEqual(pre.Interface(), short.Interface()) {
+				lg, sg := long.Interface().(geom.Geom), pre.Interface().(geom.Geom)
+				a, b := lg.Similar(sg, tol), sg.Similar(lg, tol)
+				if swapped {
+					a, b = b, a
+				}
+				e["agh"], e["ahg"] = a, b
+			}
+		}
 	})
 	return []Event{e}
 }
